@@ -30,3 +30,37 @@ static void run_battery(hwloc_topology_t t, battery_fail_t failcb) {
   for (unsigned long sf = 0; sf < 16; sf += 5) { char buf[4096]; (void)hwloc_topology_export_synthetic(t, buf, sizeof buf, sf); char tiny[5]; (void)hwloc_topology_export_synthetic(t, tiny, sizeof tiny, sf); }
   hwloc_topology_t cp = NULL; if (hwloc_topology_dup(&cp, t) == 0) { hwloc_topology_check(cp); hwloc_topology_destroy(cp); } else FAILB("battery_dup", "dup of a loaded topology failed");
 }
+
+// A document that exercises every optional section of the importer (distances, memory attributes, CPU kinds, Misc, infos): used to
+// load a topology again after a failed load -- state left behind by the failed import (array capacities, list tails, ids) shows up here.
+static const std::string &rich_xml() {
+  static std::string x;
+  if (!x.empty()) return x;
+  hwloc_topology_t t; hwloc_topology_init(&t); hwloc_topology_set_type_filter(t, HWLOC_OBJ_MISC, HWLOC_TYPE_FILTER_KEEP_ALL); hwloc_topology_set_synthetic(t, "pack:2 [numa] core:2 pu:2"); hwloc_topology_load(t);
+  hwloc_bitmap_t b = hwloc_bitmap_alloc(); hwloc_bitmap_set_range(b, 0, 3); struct hwloc_info_s inf; inf.name = (char *)"kind"; inf.value = (char *)"little"; struct hwloc_infos_s infs; infs.array = &inf; infs.count = 1; infs.allocated = 1; hwloc_cpukinds_register(t, b, 1, &infs, 0);
+  hwloc_bitmap_zero(b); hwloc_bitmap_set_range(b, 4, 7); hwloc_cpukinds_register(t, b, 2, NULL, 0); hwloc_bitmap_free(b);
+  hwloc_obj_t objs[4]; hwloc_uint64_t vals[16]; for (int i = 0; i < 4; i++) objs[i] = hwloc_get_obj_by_type(t, HWLOC_OBJ_CORE, i); for (int i = 0; i < 16; i++) vals[i] = (i / 4 == i % 4) ? 10 : 20 + i;
+  hwloc_distances_add_handle_t h = hwloc_distances_add_create(t, "rich", HWLOC_DISTANCES_KIND_FROM_USER | HWLOC_DISTANCES_KIND_VALUE_LATENCY, 0); if (h && hwloc_distances_add_values(t, h, 4, objs, vals, 0) == 0) hwloc_distances_add_commit(t, h, 0);
+  hwloc_memattr_id_t id; if (hwloc_memattr_register(t, "richattr", HWLOC_MEMATTR_FLAG_HIGHER_FIRST | HWLOC_MEMATTR_FLAG_NEED_INITIATOR, &id) == 0) { struct hwloc_location loc; loc.type = HWLOC_LOCATION_TYPE_CPUSET; loc.location.cpuset = hwloc_get_obj_by_type(t, HWLOC_OBJ_PACKAGE, 0)->cpuset; hwloc_memattr_set_value(t, id, hwloc_get_obj_by_type(t, HWLOC_OBJ_NUMANODE, 0), &loc, 0, 77); hwloc_memattr_set_value(t, id, hwloc_get_obj_by_type(t, HWLOC_OBJ_NUMANODE, 1), &loc, 0, 99); }
+  hwloc_topology_insert_misc_object(t, hwloc_get_root_obj(t), "richmisc"); hwloc_obj_add_info(hwloc_get_root_obj(t), "richinfo", "v");
+  char *buf = NULL; int len = 0; if (hwloc_topology_export_xmlbuffer(t, &buf, &len, 0) == 0) { x.assign(buf, strlen(buf)); hwloc_free_xmlbuffer(t, buf); }
+  hwloc_topology_destroy(t); return x;
+}
+// After hwloc_topology_load() failed on `t`: the topology may be configured and loaded again (variant 0: a synthetic description; 1: the
+// rich document through the buffer API; 2: the rich document with every type kept and the sections counted).
+static void reload_after_failure(hwloc_topology_t t, unsigned variant, battery_fail_t failcb) {
+  if (variant % 3 == 0) {
+    if (hwloc_topology_set_synthetic(t, "pack:2 core:2 pu:2") != 0) failcb("reconfigure_after_failure", "set_synthetic after a failed XML load failed");
+    if (hwloc_topology_load(t) != 0) failcb("reload_after_failure", "load after a failed XML load failed");
+  } else {
+    const std::string &x = rich_xml();
+    if (variant % 3 == 2) hwloc_topology_set_all_types_filter(t, HWLOC_TYPE_FILTER_KEEP_ALL);
+    if (hwloc_topology_set_xmlbuffer(t, x.c_str(), (int)x.size() + 1) != 0) failcb("reconfigure_after_failure", "set_xmlbuffer of a valid document after a failed XML load failed");
+    if (hwloc_topology_load(t) != 0) failcb("reload_after_failure", "load of a valid document after a failed XML load failed");
+    unsigned long fl = hwloc_topology_get_flags(t);
+    if (!(fl & HWLOC_TOPOLOGY_FLAG_NO_CPUKINDS) && hwloc_cpukinds_get_nr(t, 0) != 2) failcb("reload_after_failure", strf("the document reloaded after a failed load has %d CPU kinds instead of 2", hwloc_cpukinds_get_nr(t, 0)).c_str());
+    if (!(fl & HWLOC_TOPOLOGY_FLAG_NO_DISTANCES)) { unsigned nr = 0; hwloc_distances_get(t, &nr, NULL, 0, 0); if (nr != 1) failcb("reload_after_failure", strf("the document reloaded after a failed load has %u distances structures instead of 1", nr).c_str()); }
+    if (!(fl & HWLOC_TOPOLOGY_FLAG_NO_MEMATTRS)) { hwloc_memattr_id_t id; if (hwloc_memattr_get_by_name(t, "richattr", &id) != 0) failcb("reload_after_failure", "the document reloaded after a failed load lost its custom memory attribute"); }
+    (void)dump_topology(t);
+  }
+}
